@@ -15,6 +15,254 @@ fn shape(which: usize) -> (String, usize, Vec<usize>) {
     }
 }
 
+/// Word-periodic segments with closed-form rank and select, so that dense vectors beyond 2^32 bits have a
+/// reference model that needs no list of positions.
+#[derive(Clone, Copy, Debug, PartialEq)]
+enum Kind {
+    Zeros,
+    Ones,
+    /// 0101..: ones at the even positions
+    Alt,
+    /// bit 0 of every word
+    OnePerWord,
+}
+#[derive(Clone, Copy, Debug)]
+struct Seg {
+    start: usize, // multiple of 64
+    end: usize,
+    kind: Kind,
+}
+impl Seg {
+    /// ones among the first k bits of the segment
+    fn ones_in(&self, k: usize) -> usize {
+        match self.kind {
+            Kind::Zeros => 0,
+            Kind::Ones => k,
+            Kind::Alt => k.div_ceil(2),
+            Kind::OnePerWord => k.div_ceil(64),
+        }
+    }
+    /// offset of the one of rank r inside the segment
+    fn one_at(&self, r: usize) -> usize {
+        match self.kind {
+            Kind::Zeros => unreachable!(),
+            Kind::Ones => r,
+            Kind::Alt => 2 * r,
+            Kind::OnePerWord => 64 * r,
+        }
+    }
+    /// offset of the zero of rank r inside the segment
+    fn zero_at(&self, r: usize) -> usize {
+        match self.kind {
+            Kind::Ones => unreachable!(),
+            Kind::Zeros => r,
+            Kind::Alt => 2 * r + 1,
+            Kind::OnePerWord => r + r / 63 + 1,
+        }
+    }
+    fn word(&self) -> usize {
+        match self.kind {
+            Kind::Zeros => 0,
+            Kind::Ones => usize::MAX,
+            Kind::Alt => 0x5555_5555_5555_5555,
+            Kind::OnePerWord => 1,
+        }
+    }
+}
+struct Formula {
+    segs: Vec<Seg>,
+    len: usize,
+}
+impl Formula {
+    fn rank(&self, p: usize) -> usize {
+        let p = p.min(self.len);
+        self.segs.iter().map(|s| if p <= s.start { 0 } else { s.ones_in(p.min(s.end) - s.start) }).sum()
+    }
+    fn num_ones(&self) -> usize {
+        self.rank(self.len)
+    }
+    fn select(&self, mut r: usize) -> Option<usize> {
+        for s in &self.segs {
+            let c = s.ones_in(s.end - s.start);
+            if r < c {
+                return Some(s.start + s.one_at(r));
+            }
+            r -= c;
+        }
+        None
+    }
+    fn select_zero(&self, mut r: usize) -> Option<usize> {
+        for s in &self.segs {
+            let c = (s.end - s.start) - s.ones_in(s.end - s.start);
+            if r < c {
+                return Some(s.start + s.zero_at(r));
+            }
+            r -= c;
+        }
+        None
+    }
+    fn build(&self) -> BitVec {
+        let mut words = vec![0usize; self.len.div_ceil(64)];
+        for s in &self.segs {
+            let w = s.word();
+            if w != 0 {
+                words[s.start / 64..s.end.div_ceil(64)].fill(w);
+                if s.end % 64 != 0 {
+                    words[s.end / 64] &= (1usize << (s.end % 64)) - 1;
+                }
+            }
+        }
+        // SAFETY: the words hold len bits and nothing beyond
+        unsafe { BitVec::from_raw_parts(words, self.len) }
+    }
+}
+
+fn formula_shapes(t: bool) -> Vec<(String, Formula)> {
+    let b = 1usize << 32;
+    let mk = |name: &str, segs: Vec<(usize, usize, Kind)>| {
+        let len = segs.last().unwrap().1;
+        (name.to_string(), Formula { segs: segs.into_iter().map(|(start, end, kind)| Seg { start, end, kind }).collect(), len })
+    };
+    let mut v = vec![
+        mk("alternating, 2^32+130 bits", vec![(0, b + 130, Kind::Alt)]),
+        mk("first upper block empty, then 2^16 ones", vec![(0, b, Kind::Zeros), (b, b + (1 << 16) + 7, Kind::Ones)]),
+        mk("first upper block all ones, then 2^16 zeros", vec![(0, b, Kind::Ones), (b, b + (1 << 16) + 7, Kind::Zeros)]),
+        mk("one per word, 2^32+6400 bits", vec![(0, b + 6400, Kind::OnePerWord)]),
+        mk("ones, 128 zeros across the 2^32 boundary, 64 ones", vec![(0, b - 64, Kind::Ones), (b - 64, b + 64, Kind::Zeros), (b + 64, b + 128, Kind::Ones)]),
+        mk("alternating then ones across the boundary", vec![(0, b - 640, Kind::Alt), (b - 640, b + 640, Kind::Ones), (b + 640, b + 1000, Kind::OnePerWord)]),
+    ];
+    if t {
+        v.push(mk("2^16 ones, an empty middle upper block, 100 ones after 2^33", vec![(0, 1 << 16, Kind::Ones), (1 << 16, 2 * b, Kind::Zeros), (2 * b, 2 * b + 100, Kind::Ones)]));
+        v.push(mk("alternating, 2^33+64 bits", vec![(0, 2 * b + 64, Kind::Alt)]));
+        v.push(mk("ones, 2^33+1 bits", vec![(0, 2 * b + 1, Kind::Ones)]));
+    }
+    v
+}
+
+fn formula_cases(ctx: &mut Ctx, prop: &str) {
+    let t = ctx.thorough();
+    for (name, f) in formula_shapes(t) {
+        if !ctx.case(|| format!("huge formula vector ({name}) ({prop})")) {
+            continue;
+        }
+        ctx.nontrivial();
+        let bv = f.build();
+        let (len, ones) = (f.len, f.num_ones());
+        let zeros = len - ones;
+        // probe positions / ranks: around every segment boundary, every multiple of 2^32, both ends
+        let mut pos: Vec<usize> = vec![0, 1, 63, 64, 65, len - 1, len, len + 1, usize::MAX];
+        let mut marks: Vec<usize> = f.segs.iter().flat_map(|s| [s.start, s.end]).collect();
+        marks.extend((1..=len >> 32).map(|k| k << 32));
+        for &m in &marks {
+            for d in [-130i64, -65, -64, -63, -2, -1, 0, 1, 2, 63, 64, 65, 130] {
+                let p = m as i64 + d;
+                if p >= 0 {
+                    pos.push(p as usize);
+                }
+            }
+        }
+        pos.sort();
+        pos.dedup();
+        let mut ranks: Vec<usize> = vec![0, 1, ones.saturating_sub(1), ones, ones + 1, usize::MAX];
+        let mut zranks: Vec<usize> = vec![0, 1, zeros.saturating_sub(1), zeros, zeros + 1, usize::MAX];
+        for &p in &pos {
+            let r = f.rank(p);
+            let z = p.min(len) - r;
+            for d in [-2i64, -1, 0, 1, 2] {
+                if r as i64 + d >= 0 {
+                    ranks.push((r as i64 + d) as usize);
+                }
+                if z as i64 + d >= 0 {
+                    zranks.push((z as i64 + d) as usize);
+                }
+            }
+        }
+        for v in [&mut ranks, &mut zranks] {
+            v.sort();
+            v.dedup();
+        }
+        macro_rules! rk {
+            ($n:expr, $s:expr) => {{
+                match guard(|| $s) {
+                    Outcome::Panic(m) => ctx.violation(&format!("C01|{}::new|panic", $n), format!("{name}: {m}")),
+                    Outcome::Ret(s) => {
+                        ctx.heartbeat();
+                        if s.num_ones() != ones || s.len() != len {
+                            ctx.violation(&format!("C01|{}|num_ones", $n), format!("{name}: num_ones {} len {} expected {ones} / {len}", s.num_ones(), s.len()));
+                        }
+                        for &p in &pos {
+                            ctx.sub_evaluations += 1;
+                            if s.rank(p) != f.rank(p) || s.rank_zero(p) != p - f.rank(p) {
+                                ctx.violation(&format!("C01|{}|rank", $n), format!("{name}: rank({p}) = {} rank_zero = {} expected rank {}", s.rank(p), s.rank_zero(p), f.rank(p)));
+                                break;
+                            }
+                        }
+                    }
+                }
+            }};
+        }
+        macro_rules! sl {
+            ($n:expr, $s:expr, $z:tt) => {{
+                match guard(|| $s) {
+                    Outcome::Panic(m) => ctx.violation(&format!("C02|{}::new|panic", $n), format!("{name}: {m}")),
+                    Outcome::Ret(s) => {
+                        ctx.heartbeat();
+                        for &r in &ranks {
+                            ctx.sub_evaluations += 1;
+                            match guard(|| s.select(r)) {
+                                Outcome::Ret(g) if g == f.select(r) => {}
+                                Outcome::Ret(g) => {
+                                    ctx.violation(&format!("C02|{}|select", $n), format!("{name}: select({r}) = {g:?} expected {:?}", f.select(r)));
+                                    break;
+                                }
+                                Outcome::Panic(m) => {
+                                    ctx.violation(&format!("C02|{}|query-panic", $n), format!("{name}: select({r}) panicked: {m}"));
+                                    break;
+                                }
+                            }
+                        }
+                        sl!(@z $z, $n, s);
+                    }
+                }
+            }};
+            (@z true, $n:expr, $s:expr) => {
+                for &r in &zranks {
+                    ctx.sub_evaluations += 1;
+                    match guard(|| $s.select_zero(r)) {
+                        Outcome::Ret(g) if g == f.select_zero(r) => {}
+                        Outcome::Ret(g) => {
+                            ctx.violation(&format!("C02|{}|select_zero", $n), format!("{name}: select_zero({r}) = {g:?} expected {:?}", f.select_zero(r)));
+                            break;
+                        }
+                        Outcome::Panic(m) => {
+                            ctx.violation(&format!("C02|{}|query-panic", $n), format!("{name}: select_zero({r}) panicked: {m}"));
+                            break;
+                        }
+                    }
+                }
+            };
+            (@z false, $n:expr, $s:expr) => {};
+        }
+        if prop == "C01" {
+            rk!("Rank9", Rank9::new(&bv));
+            rk!("RankSmall<2,9>", rank_small![0; &bv]);
+            rk!("RankSmall<1,9>", rank_small![1; &bv]);
+            rk!("RankSmall<1,10>", rank_small![2; &bv]);
+            rk!("RankSmall<1,11>", rank_small![3; &bv]);
+            rk!("RankSmall<3,13>", rank_small![4; &bv]);
+        } else if prop == "C02" {
+            sl!("SelectZeroAdapt(SelectAdapt(AddNumBits))", SelectZeroAdapt::new(SelectAdapt::new(AddNumBits::from(&bv), 3), 3), true);
+            sl!("SelectZeroAdaptConst(SelectAdaptConst(AddNumBits))", SelectZeroAdaptConst::<_, _>::new(SelectAdaptConst::<_, _>::new(AddNumBits::from(&bv))), true);
+            sl!("Select9(Rank9)", Select9::new(Rank9::new(&bv)), false);
+            sl!("SelectZeroSmall(SelectSmall(RankSmall<2,9>))", SelectZeroSmall::<2, 9, _>::new(SelectSmall::<2, 9, _>::new(rank_small![0; &bv])), true);
+            sl!("SelectZeroSmall(SelectSmall(RankSmall<1,9>))", SelectZeroSmall::<1, 9, _>::new(SelectSmall::<1, 9, _>::new(rank_small![1; &bv])), true);
+            sl!("SelectZeroSmall(SelectSmall(RankSmall<1,10>))", SelectZeroSmall::<1, 10, _>::new(SelectSmall::<1, 10, _>::new(rank_small![2; &bv])), true);
+            sl!("SelectZeroSmall(SelectSmall(RankSmall<1,11>))", SelectZeroSmall::<1, 11, _>::new(SelectSmall::<1, 11, _>::new(rank_small![3; &bv])), true);
+            sl!("SelectZeroSmall(SelectSmall(RankSmall<3,13>))", SelectZeroSmall::<3, 13, _>::new(SelectSmall::<3, 13, _>::new(rank_small![4; &bv])), true);
+        }
+    }
+}
+
 fn main() {
     let mut ctx = Ctx::from_args();
     start_watchdog(1800);
@@ -136,6 +384,7 @@ fn main() {
         ctx.finish();
         return;
     }
+    formula_cases(&mut ctx, &prop);
     for which in 0..4 {
         let (name, len, ones) = shape(which);
         if !ctx.case(|| format!("huge vector len={len} ({name})")) {
